@@ -18,7 +18,7 @@ LEVEL = "model_checking"
 ENGINE = "E3"
 TECHNIQUE = "controlled-scheduler exploration (iterative deviation bounding) of the real asyncio drivers on a virtual event loop against gateway models; wire log vs independent per-caller expansion"
 RULE = ("scenario = driver x ordered list of callers from {P single command, Q query, D device-type command, C device-type send-twice command, T send-twice, "
-        "S multi-command sequence with device type + sleep, R sequence that raises, X cancellable sequence, Y cancellable single send}; "
+        "S multi-command sequence with device type + sleep, M sequence switching between three device types, R sequence that raises, X cancellable sequence, Y cancellable single send}; "
         "callers started one after the other (start = deviation) and, for the cancellation triples, all started back to back; all schedules with "
         "<= d deviations over {run batch, gateway report, start next caller, timer, cancel}; states = distinct (wire order, caller "
         "outcomes) observations, transitions = scheduler events executed, traces = executions")
@@ -73,6 +73,9 @@ def unit_descs(kind, k):
                 ((G, "QueryStatus", (a,)), 0)]
     if kind == "R":
         return [((G, "DTR1", (k,)), 0), (dt_cmd_desc(k), DT[k])]
+    if kind == "M":         # ONE sequence with commands of several different device types
+        return [(("gear.led", "QueryFastFadeTime", (a,)), 6), (("gear.colour", "Activate", (a,)), 8), ((G, "QueryStatus", (a,)), 0),
+                (("gear.emergency", "QueryEmergencyMode", (a,)), 1), (("gear.led", "QueryFastFadeTime", (a,)), 6)]
     raise AssertionError(kind)
 
 
@@ -126,6 +129,17 @@ def make_caller(kind, k, gens):
             gens[f"{kind}{k}"] = g
             return await w.driver.run_sequence(g)
         return Caller(f"{kind}{k}", co, cancellable=(kind == "X"))
+    if kind == "M":
+        def gen():
+            for d in descs:
+                yield lib(d)
+            return ("done", k)
+
+        async def co(w):
+            g = gen()
+            gens[f"{kind}{k}"] = g
+            return await w.driver.run_sequence(g)
+        return Caller(f"{kind}{k}", co)
     if kind == "R":
         def gen():
             yield lib(descs[0])
@@ -278,6 +292,12 @@ def shards(tier):
                 out.append(("run", drv, tr, 2))
             for q in itertools.product(["S", "D"], repeat=4):
                 out.append(("run", drv, q, 1))
+        # one sequence that switches between device types (the prefix must match EACH command)
+        out.append(("run", drv, ("M",), 2))
+        for x in ("P", "Q", "D", "S", "M"):
+            out.append(("run", drv, ("M", x), 1 if tier == "quick" else 2))
+            if x != "M":
+                out.append(("run", drv, (x, "M"), 1 if tier == "quick" else 2))
         # all callers started back to back (start is the default event), the middle one cancellable: a caller
         # cancelled while it is still queueing for the lock, behind one that is in flight and ahead of another
         for a in ("Q", "S", "D"):
